@@ -57,7 +57,19 @@ func lebRules(c *Ctx, mode string) int {
 			hi, nb = 1<<32-1, 32
 		}
 		m := &casei.Machine{}
-		return m.Run(wr, []casei.Val{casei.Input("v", 64, nb, lo, hi)})
+		out, err := m.Run(wr, []casei.Val{casei.Input("v", 64, nb, lo, hi)})
+		if err != nil && !errors.Is(err, casei.ErrUnsupported) && k == 1 {
+			// a writer that computes the size first treats 0 apart from 1..127 (no significant bit): the class is
+			// split there; the zero case must yield the single octet 0, which is what the bit table says for v = 0
+			z, errZ := (&casei.Machine{}).Run(wr, []casei.Val{casei.Const(0, 64)})
+			nz, errN := (&casei.Machine{}).Run(wr, []casei.Val{casei.Input("v", 64, nb, 1, hi)})
+			if errZ == nil && errN == nil && z.IsSlice && z.Len == 1 {
+				if cv, isC := z.Arr.Elems[z.Off].IsConst(); isC && cv == 0 {
+					return nz, nil
+				}
+			}
+		}
+		return out, err
 	}
 	for k := 1; k <= 10; k++ {
 		out, err := encode(k, false)
